@@ -1,5 +1,6 @@
 """C04 — sync2.Map is linearizable to an ordinary map (sequential half: all single-goroutine call sequences; concurrent half: see C04conc)."""
 from .. import scriptprop, traceprop
+import random
 from . import C04seq
 
 ID = "C04"
@@ -15,7 +16,8 @@ ASSUMPTIONS = ["data-race freedom in the Go-memory-model sense is not modelled (
 def explore(core, rng, tier, seed, search=False):
     n, nops = (500, 40) if tier == "quick" else (20000, 200)
     scripts = [C04seq.history(rng, nops, rng.choice([2, 5, 5, 9])) for _ in range(n)]
-    scripts += [C04seq.bighistory(rng, N) for N in ((65, 130, 257, 300) if tier == "quick" else (63, 64, 65, 66, 100, 129, 255, 256, 257, 258, 300, 513, 1025))]
+    brng = random.Random(seed * 7919 + 4)      # its own stream: the draws below (schedule seeds) stay what they were before this family was added
+    scripts += [C04seq.bighistory(brng, N) for N in ((65, 130, 257, 300) if tier == "quick" else (63, 64, 65, 66, 100, 129, 255, 256, 257, 258, 300, 513, 1025))]
     nt = lambda sc: any(l.startswith(("loadanddelete", "delete")) for l in sc) and any(l.startswith("load ") for l in sc)
     r = scriptprop.explore(core, ID, scripts, nontrivial=nt)
     # ---- concurrent half: executions of the real code under the controlled scheduler and natively, judged by the Lean driver
